@@ -126,6 +126,16 @@ func buildWorld(preempt bool) (*Build, error) {
 		return b, err
 	}
 	gomod = append(gomod, []byte("\nrequire github.com/anishathalye/porcupine v1.3.0\n")...)
+	// bbolt with its gofail markers turned into calls of a hook (C10)
+	bdir := filepath.Join(scratch, "bbolt")
+	npoints, err := makeBboltCopy(repo, bdir)
+	if err != nil {
+		return b, err
+	}
+	if npoints < 5 {
+		return b, fmt.Errorf("bbolt copy: only %d failpoints found", npoints)
+	}
+	gomod = append(gomod, []byte("\nreplace go.etcd.io/bbolt => "+bdir+"\n")...)
 	if err := os.WriteFile(filepath.Join(scratch, "go.mod"), gomod, 0o644); err != nil {
 		return b, err
 	}
